@@ -35,7 +35,7 @@ NS_DICTS = [
 
 @st.composite
 def cases(draw):
-    g = draw(gg.general(inst_props=(RDF_TYPE, RDF_TYPE, RDF_TYPE, "http://ex.org/isA")))
+    g = draw(gg.general(inst_props=(RDF_TYPE, RDF_TYPE, RDF_TYPE, "http://ex.org/isA"), quirks=draw(gg.quirk_set(one_in=4))))
     cfg = draw(gg.switches())
     cfg["instances_report_mode"] = "mixed"
     if draw(st.integers(0, 3)) == 0:
